@@ -308,10 +308,12 @@ def gen_tree(rng, ctx, depth):
             return ('R', 1)
         name = rng.choice(pool)
         return ('I', name, cases(), gen_tree(rng, ctx, depth - 1))
+    if not ctx.get('form_obs', True):
+        return ('R', 2)
     return ('F', rng.choice(ctx['forms']), gen_tree(rng, ctx, depth - 1))
 
 
-def gen_case(rng, wild=None):
+def gen_case(rng, wild=None, form_obs=True, prompt_mode=None):
     """wild: allow dangling references (unknown forms/fields/inputs, refused instances)."""
     if wild is None:
         wild = rng.random() < 0.3
@@ -346,7 +348,7 @@ def gen_case(rng, wild=None):
             wild_fields.append(f'{nm}:9.1')
         ctx = dict(own_fields=fbases, own_inputs=ibases, other_fields=other_fields,
                    other_inputs=other_inputs, forms=all_forms + (['qq'] if wild else []),
-                   wild=wild, wild_fields=wild_fields, wild_inputs=wild_inputs)
+                   wild=wild, wild_fields=wild_fields, wild_inputs=wild_inputs, form_obs=form_obs)
         fields = []
         for b in fbases:
             fields.append((b, rng.random() < 0.6, gen_tree(rng, ctx, rng.choice([1, 2, 3]))))
@@ -371,6 +373,15 @@ def gen_case(rng, wild=None):
                         if wild and rng.random() < 0.03:
                             answers[f'{tc.full(inst)}.{b}'] = 'bad'
         c.prompt = dict(refuse_at=rng.choice([0, 1, 2, 3, 1000000, 1000000, 1000000]), answers=answers)
+    if prompt_mode == 'none':
+        c.prompt = None
+    elif prompt_mode == 'total':
+        answers = {}
+        for tc in c.classes:
+            for inst in tc.instances:
+                for b in tc.inputs:
+                    answers[f'{tc.full(inst)}.{b}'] = rng.choice(['0', '1', '2', '3'])
+        c.prompt = dict(refuse_at=1000000, answers=answers)
     # request
     k = rng.choice([1, 1, 2, 2, 3])
     c.forms = [rng.choice(all_forms) for _ in range(k)]
